@@ -1049,8 +1049,12 @@ package commitlog
 //@   ghost after call OldestOffset: ghost.oldestSeen := ret0
 //@   call ClearLatest requires [history-trimmed-to-the-log-end] arg1 == nextOf(l.vActiveSegment)
 //@   call ClearEarliest requires [history-trimmed-to-the-log-start] arg1 == ghost.oldestSeen
+// open: whatever the directory holds, a log that opens has an active segment - the last of the segments found, or a
+// fresh one when there was none
 //@ func (*commitLog).open serves C02, C05
-//@   ensures assumed [active-segment-set] result == nil ==> l.vActiveSegment != nil
+//@   assumes l != nil && (forall j int :: 0 <= j && j < len(l.segments) ==> l.segments[j] != nil)
+//@   loop 1 invariant forall j int :: 0 <= j && j < len(l.segments) ==> l.segments[j] != nil
+//@   ensures [active-segment-set] result == nil ==> l.vActiveSegment != nil && len(l.segments) >= 1 && l.vActiveSegment == l.segments[len(l.segments)-1]
 
 // Where an epoch starts is recorded by two writers: the new leader (NewLeaderEpoch, before it appends the epoch's first
 // message) and every replica that learns the epoch from the data (append). Both must record the same value for the same
